@@ -95,6 +95,7 @@ func idxAlphabet(extra bool) (calls []e1.Call, ids [][]interface{}) {
 	}
 	add(cBulk("d", "c", true, "repl{1 identical};ins{6,a:60};upd{1 no-op}", bulk3), int32(6))
 	add(cInsertMany("d", "c", false, bD("_id", int32(5), "a", int32(7)), bD("_id", int32(6), "a", 7.0), bD("_id", int32(7), "a", int32(8))), int32(5), int32(6), int32(7))
+	add(cInsertMany("d", "c", true, bD("_id", int32(5), "a", int32(7)), bD("_id", int32(6), "a", 7.0), bD("_id", int32(7), "a", int32(8))), int32(5), int32(6), int32(7))
 	add(cDelete("d", "c", false, bD("_id", int32(1))))
 	add(cDelete("d", "c", true, bD("a", int32(1))))
 	uniq := func(key bson.D, o idxOpt) {
